@@ -16,7 +16,12 @@ ASSUMPTIONS = [
     "peer H; v2 certificates, one overlay address per node, no relays; H forges lighthouse payloads (v2 and v1 encoding) on its "
     "own valid tunnels; a configured lighthouse that lies (addresses the receiver must filter) is played by the harness",
     "'authenticated as x' for a handshake datagram means: built by node x with x's certificate (the harness never alters "
-    "handshake bytes); a stage-1 datagram replayed from another source address is an authenticated packet of x",
+    "handshake bytes). The reading is the wording of C35 ('only from a tunnel authenticated as A'): a stage-1 datagram that is "
+    "refused (replay, already seen) makes no tunnel and must not move the learned slot, and a wrong responder's source must not "
+    "become the learned address of the intended peer; the run includes a lighthouse whose own handshake is answered by a wrong "
+    "host. (The pinned tree failed this - HostInfo.SetRemote wrote the shared RemoteList before the handshake was accepted - and "
+    "was repaired: known_findings.jsonl, fixed: C35 be50dba; VERIF_DISC_LENIENT=1 selects the weaker reading that tolerated it.) "
+    "The model is checked with Strict = TRUE",
     "recv_error datagrams go back to the source of what could not be matched and are not subject to the allow list "
     "(the statement names handshakes, punches and data)",
     "R1 is read as: a HostQuery goes only to a configured lighthouse and only for an address the node has wanted (pending or "
@@ -37,10 +42,13 @@ def mc(ctx):
     if os.environ.get('VERIF_SKIP_MC'):   # development only: mutant runs exercise the binding, not the model
         ctx.states += 1
         return None
+    # quick: one address per (subject, owner, kind) slot: 2 304 states / 25 729 transitions, 15-40 s on 8 workers at load < 20
+    # (2-4 min when the machine is at load 50-90); thorough: two addresses per slot: 4 096 states / 46 593 transitions (20 s - 4 min).
+    # TrackB = TRUE (B's table explored too) is available for manual runs: > 90 000 states, not finished after 25 min.
     cfg = open(os.path.join(ctx.spec_dir(), 'MC_Discovery.cfg')).read()
     if not ctx.quick:
-        cfg = cfg.replace('TrackB = FALSE', 'TrackB = TRUE')
-    return ctx.tlc('MC_Discovery', 'MC_Discovery_run.cfg', cfgtext=cfg, timeout=1500, workers=8)
+        cfg = cfg.replace('SlotMax = 1', 'SlotMax = 2')
+    return ctx.tlc('MC_Discovery', 'MC_Discovery_run.cfg', cfgtext=cfg, timeout=2400, workers=8)
 
 
 def record(ctx, traces=None):
@@ -70,7 +78,30 @@ def _diagnose(ctx, fl, n):
 
 def validate(ctx, tracefile, only=None):
     """only: optional predicate on the rule label (C35 / C36 keep their own part). Violations are added to ctx."""
-    fails, ok = ctx.validate_traces('TraceMC_Discovery', 'Trace_Discovery.cfg', tracefile, max_fail=6)
+    # the thorough tier records some 10^5 lines: validated in chunks of 120 traces (one TLC run each)
+    chunks, cur, ntr = [], [], 0
+    with open(tracefile) as f:
+        for ln in f:
+            if not ln.strip():
+                continue
+            if '"ev":"reset"' in ln:
+                if ntr and ntr % 120 == 0:
+                    chunks.append(cur)
+                    cur = []
+                ntr += 1
+            cur.append(ln)
+    if cur:
+        chunks.append(cur)
+    fails, ok = [], 0
+    for k, ch in enumerate(chunks):
+        path = os.path.join(ctx.scratch, 'trace_disc_chunk%d.ndjson' % k)
+        with open(path, 'w') as f:
+            f.writelines(ch)
+        fl, n = ctx.validate_traces('TraceMC_Discovery', 'Trace_Discovery.cfg', path, max_fail=3, timeout=1800)
+        fails += fl
+        ok += n
+        if len(fails) >= 3:
+            break
     for i, fl in enumerate(fails):
         ln = fl['line']
         verdict = _diagnose(ctx, fl, i) or 'unexplained'
